@@ -283,45 +283,79 @@ def type_expression(ctx, rid, key, comp, spec):
                "; ".join(bad))
 
 
+def _fresh_insert_dominates(N, fn, node, set_t, key_t):
+    """the call `node` is reached only when `set.insert(key)` returned true (the key was not seen before), in any spelling:
+    `if !s.insert(k) { return }`, `if s.insert(k) { .. }`, or `if s.contains(k) { return } s.insert(k);`"""
+    from . import guards as GD
+    conds = GD.flatten(GD.dominating(N, fn["body"], node))
+    want = [set_t, key_t]
+    for c in conds:
+        if c[0] == "arm":
+            continue
+        pol, t = c
+        if t[0] == "call" and t[1] in ("HashSet::insert", "BTreeSet::insert") and [show(a) for a in t[2]] == want and pol is True:
+            return True
+        if t[0] == "call" and t[1] in ("HashSet::contains", "BTreeSet::contains") and [show(a) for a in t[2]] == want and pol is False:
+            # the unconditional insert must precede the call: a statement of the function's own block
+            blk = strip(fn["body"])
+            stmts = blk["b"]["stmts"] if blk.get("k") == "Block" else []
+            for st in stmts:
+                if st.get("k") in ("SSemi", "SExpr"):
+                    x = strip(st["e"])
+                    if x.get("k") == "MethodCall" and cshort(x.get("callee", "")) in ("HashSet::insert", "BTreeSet::insert") \
+                            and [show(N.term(x["recv"]))] + [show(N.term(a)) for a in x["args"]] == want and x["sp"] < node["sp"]:
+                        return True
+    return False
+
+
 def guarded(ctx, rid, key, comp, spec):
     fn = ctx.P.body(comp[0])
     N = Norm(fn)
+    calls = _calls_into(ctx, fn, comp)
     if spec["check"] == "collect_type_ids":
-        t = show(N.term(fn["body"]), 10 ** 5)
         i_id = q.param_index(fn, lambda t: t == "u32")
         i_set = q.param_index(fn, lambda t: "HashSet<u32" in t)
-        ok = t.startswith("early{Not(HashSet::insert(P%d,P%d))=>return '()'}" % (i_set, i_id))
-        # every recursive call passes the same set
-        for n, cal in _calls_into(ctx, fn, comp):
-            if show(N.term(n["args"][i_set])) != "P%d" % i_set:
-                ok = False
-        ctx.expect(ok, rid, key, fn["sp"], "(g) guarded graph recursion: visited check is the first statement, the id is inserted before descending, the same set is threaded through",
-                   "collect_type_ids does not start with `if visited.contains(id) {return}; visited.insert(id)`: " + t[:200])
+        bad = []
+        if i_id is None or i_set is None:
+            bad.append("signature changed: expected one u32 id and one HashSet<u32>")
+        else:
+            for n, cal in calls:
+                if show(N.term(n["args"][i_set])) != "P%d" % i_set:
+                    bad.append("recursive call at %s does not thread the visited set through" % n["sp"])
+                elif not _fresh_insert_dominates(N, fn, n, "P%d" % i_set, "P%d" % i_id):
+                    bad.append("recursive call at %s is not dominated by a fresh insertion of the current id into the visited set" % n["sp"])
+        ctx.expect(not bad and calls, rid, key, fn["sp"],
+                   "(g) guarded graph recursion: each of the %d recursive calls is reached only after the current id was freshly inserted into the visited set, "
+                   "which is threaded through (each descent strictly grows a set bounded by the registry size)" % len(calls), "; ".join(bad) or "no recursive call found")
     elif spec["check"] == "types_equal":
         # every descent is preceded by recording the compared pair; a pair seen again returns without descending,
         # so each descent strictly grows a set bounded by (registry size)^2
         ids = [i for i, t in enumerate(fn["inputs"]) if t == "u32"]
         vis = [i for i, t in enumerate(fn["inputs"]) if "HashSet<" in t]
-        t = show(N.term(fn["body"]), 10 ** 5)
-        ok = False
-        why = "no visited-set guard before the recursive comparisons"
+        bad = []
         if len(ids) == 2 and len(vis) == 1 and "HashSet<(u32, u32)" in fn["inputs"][vis[0]]:
-            guard = "Not(HashSet::insert(P%d,(P%d,P%d)))=>return true" % (vis[0], ids[0], ids[1])
-            ok = guard in t.split("match(")[0]
-            why = "pair guard `%s` not found before the TypeDef match" % guard
+            for n, cal in calls:
+                args = ([n["recv"]] + n["args"]) if n["k"] == "MethodCall" else n["args"]
+                if show(N.term(args[vis[0]])) != "P%d" % vis[0]:
+                    bad.append("recursive comparison at %s does not thread the visited set through" % n["sp"])
+                elif not _fresh_insert_dominates(N, fn, n, "P%d" % vis[0], "(P%d,P%d)" % (ids[0], ids[1])):
+                    bad.append("recursive comparison at %s is not dominated by a fresh insertion of the compared pair into the visited set" % n["sp"])
         elif len(ids) == 2 and len(vis) == 2:
-            g2 = "(Not(HashSet::insert(P%d,P%d))&&Not(HashSet::insert(P%d,P%d)))=>return true" % (vis[0], ids[0], vis[1], ids[1])
-            ok = g2 in t.split("match(")[0]
-            why = "per-side guards not found before the TypeDef match"
-        # the same set(s) must be threaded through every recursive call
-        for n, cal in _calls_into(ctx, fn, comp):
-            for v in vis:
-                if show(N.term(n["args"][v])) != "P%d" % v:
-                    ok = False
-                    why = "a recursive comparison does not thread the visited set through"
-        ctx.expect(ok, rid, key, fn["sp"],
+            # one visited set per side: a descent happens only if at least one side's id is fresh, so the two sets together still grow strictly
+            from . import guards as GD
+            g2 = "(Not(HashSet::insert(P%d,P%d))&&Not(HashSet::insert(P%d,P%d)))" % (vis[0], ids[0], vis[1], ids[1])
+            for n, cal in calls:
+                args = ([n["recv"]] + n["args"]) if n["k"] == "MethodCall" else n["args"]
+                conds = GD.flatten(GD.dominating(N, fn["body"], n))
+                if any(show(N.term(args[v])) != "P%d" % v for v in vis):
+                    bad.append("recursive comparison at %s does not thread the visited sets through" % n["sp"])
+                elif not any(c[0] is False and show(c[1]) == g2 for c in conds if c[0] != "arm"):
+                    bad.append("recursive comparison at %s is not dominated by the per-side freshness guard" % n["sp"])
+        else:
+            bad.append("no visited set keyed by the compared ids: signature has ids %s and sets %s" % (ids, [fn["inputs"][v] for v in vis]))
+        ctx.expect(not bad and calls, rid, key, fn["sp"],
                    "(g) guarded graph recursion: the compared pair is recorded before any recursive comparison and a pair seen again returns without descending "
-                   "(each descent strictly grows a set bounded by the square of the registry size)", why)
+                   "(each descent strictly grows a set bounded by the square of the registry size)", "; ".join(bad) or "no recursive call found")
 
 
 def transformer_scc(ctx, rid, key, comp, g, bindings):
@@ -372,7 +406,7 @@ def transformer_scc(ctx, rid, key, comp, g, bindings):
         pt = show(Norm(pf).term(pf["body"]))
         who = cshort(b["in"])
         if "type_description" in b["in"]:
-            exp = "early{Option::is_some(Path::ident(P1.path))=>return Some(Ok(description::type_name_with_type_params(P1,Transformer::types(P2))))}v1::None"
+            exp = "then(Option::is_some(Path::ident(P1.path)),Ok(description::type_name_with_type_params(P1,Transformer::types(P2))))"
             ctx.expect(pt == exp, rid, key + "/recurse-policy/" + who, pf["sp"],
                        "description: a type met again while in progress is referred to by name iff it has a path ident; unnamed types continue (finite by W5: every cycle passes through a named type)",
                        "description recurse policy is `%s`" % pt[:300])
